@@ -284,6 +284,12 @@ def _main(prop, tier, seed, scen_name, scratch, t0, only):
     for j in jobs:
         j.setdefault('cfg', {})
         j.setdefault('opts', {})
+    # canaries first, the rest in a seeded random order: when a changed tree makes jobs slow and the global
+    # budget cuts the run, every scenario family has had a share of the time
+    order_rng = random.Random(seed * 104729 + 7)
+    rest = [j for j in jobs if not j.get('canary')]
+    order_rng.shuffle(rest)
+    jobs = [j for j in jobs if j.get('canary')] + rest
     default_budget = getattr(mod, 'BUDGET', {}).get(tier, 120 if tier == 'quick' else 900)
     log("[%s] %d jobs, tier=%s seed=%d nproc=%d" % (prop, len(jobs), tier, seed, NPROC))
     gb = getattr(mod, 'GLOBAL_BUDGET', {}).get(tier, 420 if tier == 'quick' else 3000)
